@@ -38,11 +38,16 @@ def make_task(rng, kind):
         masks.append(list(cur))
     t = {"kind": kind, "shapes": shapes, "S": S, "draw": draw, "masks": masks, "seed": rng.randrange(1 << 30),
          "zero_rows": rng.random() < 0.4}
+    if kind == "fully" and not family.TEMPLATES["_sh"]["merge"] and rng.random() < 0.3:
+        t["strided_local"] = True          # local shards that are not contiguous (no dimensions are merged, so no view is needed)
+    r = rng.random()
+    if r < 0.35:          # mixed-precision parameter groups, any order (a 16-bit parameter first included)
+        t["dtypes"] = [rng.choice(["bfloat16", "float32", "float32", "float16"]) for _ in shapes]
     if kind == "hybrid":
         t["S"] = min(S, 3)
         t["R"] = rng.choice([1, 2, 2, 4]) if t["S"] <= 2 else rng.choice([1, 2])
         t["GS"] = rng.choice([d for d in (1, 2, 4) if t["R"] % d == 0])
-        t["comm"] = rng.choice(["fp32", "fp32", "bf16"])
+        t["comm"] = rng.choice(["fp32", "default", "default", "bf16"])
         t["comm_params"] = rng.random() < 0.4
         if t["R"] > 1 and rng.random() < 0.4:
             rows = list(range(t["R"]))
